@@ -6,7 +6,7 @@
 (* The Compiler machine is stepped over the program's declarations (one    *)
 (* TLC state per grammar action); then each observation is decided.        *)
 (***************************************************************************)
-EXTENDS Compiler, TextPos, Json, IOUtils
+EXTENDS Compiler, TextPos, Cli, Json, IOUtils
 
 Batch == JsonDeserialize(IOEnv.TRACE_FILE)
 Traces == Batch.traces
@@ -123,6 +123,23 @@ Check(e) ==
       [] e.ev = "LintNoEffect" ->
             IF e.exit_quiet # e.exit_lint THEN "lint-changes-exit"
             ELSE IF ~e.same_outputs THEN "lint-changes-output" ELSE ""
+      [] e.ev = "CliRun" ->
+            \* one run of the command line with configuration e.cfg (C17)
+            LET cfg == [lang |-> e.cfg.lang, O |-> e.cfg.O, F |-> {e.cfg.F[x] : x \in 1..Len(e.cfg.F)},
+                        useF |-> e.cfg.useF, check |-> e.cfg.check]
+                ds == tr.files[tr.main].decls
+                names == {ds[x].name : x \in {y \in 1..Len(ds) : ds[y].d = "openMsg"}}
+                o == CliOutcome(cfg, cs.status = "accepted", e.nwarn, names)
+            IN  IF tr.trad # TraditionalParse(cfg) THEN "machinery:trad-flag"
+                ELSE IF cs.status = "rejected" /\ cs.err.kind = "out-of-model" THEN "skip:out-of-model"
+                ELSE IF e.traceback THEN "traceback"
+                ELSE IF (e.exit = 0) # (o.exit = 0) THEN "exit-status:stage-" \o o.stage
+                ELSE IF (e.nfiles > 0) # o.files THEN "output-files:stage-" \o o.stage
+                ELSE IF e.exit # 0 /\ e.ndiag = 0 THEN "refusal-without-diagnostic"
+                ELSE IF o.files /\ {e.funcs[x] : x \in 1..Len(e.funcs)} # o.funcs THEN "functions-generated"
+                ELSE IF o.files /\ ~e.funcs_same_text THEN "function-text-differs-from-unfiltered"
+                ELSE IF o.files /\ ~e.decls_same THEN "declarations-differ-from-unfiltered"
+                ELSE ""
       [] e.ev = "OutcomeType" ->
             \* C09 outcome typing: a schema, a parser error, or an OS error -- nothing else
             IF e.outcome \in {"accepted", "rejected", "oserror"} THEN ""
